@@ -36,7 +36,7 @@ class XSession:
 
     def apply(self, d):
         t, c = self.t, d["call"]
-        a = {"v": [0, 0, 0], "axis": "z", "k": 0, "plane": "xy", "n": 1, "name": d.get("name", "A"), "P": [0, 0, 0], "ang5": 0}
+        a = {"v": [0, 0, 0], "axis": "z", "k": 0, "plane": "xy", "n": 1, "name": d.get("name", "A"), "P": [0, 0, 0], "ang5": 0, "sv4": [0, 0, 0]}
         out = "ok"
         pv = {"has": False, "y": [0, 0, 0], "P": [0, 0, 0]}
         x0 = None
@@ -57,6 +57,7 @@ class XSession:
                 v = list(d["v"])
                 full = v * 3 if len(v) == 1 else v + [1.0] * (3 - len(v))
                 a["v"] = [int(x) if float(x).is_integer() else 0 for x in full[:3]]
+                a["sv4"] = [int(round(float(x) * 10000)) for x in full[:3]] if len(v) <= 3 and all(abs(float(x)) < 1000 for x in full[:3]) else [0, 0, 0]
                 t.scale(*v)
             elif c == "mirror":
                 a["plane"] = d["plane"]
@@ -202,6 +203,25 @@ def rotation_descs(rng):
         out.append({"call": "set_pivot", "P": [rng.uniform(-5, 5) for _ in range(3)]})
     ang = rng.choice(ANGLES) if rng.random() < 0.7 else rng.uniform(-360, 360)
     out.append({"call": "rotate", "angle": ang, "axis": rng.choice("xyz")})
+    if rng.random() < 0.5:
+        out.append({"call": "translate", "v": [rng.uniform(-5, 5) for _ in range(3)]})
+    return out
+
+
+# anamorphic factors, among them volume-preserving ones (|det| = 1 without being a rotation; added after seed C04h)
+SCALES = [[2.0, 1.0, 0.5], [4.0, 0.25, 1.0], [0.5, 2.0], [-2.0, 0.5, 1.0], [1.25, 0.8], [2.0, 0.5, -1.0], [0.5, 0.5, 4.0],
+          [3.0, 1.5, 0.5], [0.1, 10.0, 1.0], [2.0], [0.5], [1.5, 1.0, 1.0]]
+
+
+def scale_descs(rng):
+    """A history whose first linear operation is one scaling by given factors (C13_Scale reads it off directly)."""
+    out = []
+    if rng.random() < 0.6:
+        out.append({"call": "translate", "v": [rng.uniform(-5, 5) for _ in range(3)]})
+    if rng.random() < 0.6:
+        out.append({"call": "set_pivot", "P": [rng.uniform(-5, 5) for _ in range(3)]})
+    v = list(rng.choice(SCALES)) if rng.random() < 0.8 else [rng.choice([-1, 1]) * round(rng.uniform(0.3, 3.0), 2) for _ in range(rng.randint(1, 3))]
+    out.append({"call": "scale", "v": v})
     if rng.random() < 0.5:
         out.append({"call": "translate", "v": [rng.uniform(-5, 5) for _ in range(3)]})
     return out
